@@ -40,7 +40,8 @@ class Alloc:
         return s
 
 
-def mk_ep(name, role, nw, rng, alloc, array=None, nranges=1, style=None, gap=None, proto_sel="both", desc_tag=False):
+def mk_ep(name, role, nw, rng, alloc, array=None, nranges=1, style=None, gap=None, proto_sel="both", desc_tag=False,
+          proto_sel_sbr=None):
     """role in m, s, ms.  style: how the range is written (base+size | start+end | start+size)."""
     ep = {"name": name}
     if array is not None:
@@ -67,7 +68,8 @@ def mk_ep(name, role, nw, rng, alloc, array=None, nranges=1, style=None, gap=Non
         ep["addr_range"] = rs[0] if (nranges == 1 and rng.random() < 0.5) else rs
     if nw:
         pin = {"both": ["narrow_in", "wide_in"], "narrow": ["narrow_in"], "wide": ["wide_in"]}[proto_sel]
-        pout = {"both": ["narrow_out", "wide_out"], "narrow": ["narrow_out"], "wide": ["wide_out"]}[proto_sel]
+        # the manager and the subordinate side choose narrow / wide independently (a DMA: wide manager, narrow subordinate)
+        pout = {"both": ["narrow_out", "wide_out"], "narrow": ["narrow_out"], "wide": ["wide_out"]}[proto_sel_sbr or proto_sel]
     else:
         pin, pout = ["axi_in"], ["axi_out"]
     if "m" in role:
